@@ -6,6 +6,7 @@ model classes) with validation calls; after every step the real element is dumpe
 configuration, as the model sees it) and the model's answers for that configuration are
 compared with the real element's answers.  Oracle: a fresh element built from the same dump."""
 import random
+import time
 
 from statham.schema.elements import Element
 from statham.schema.property import Property
@@ -19,6 +20,7 @@ ID = "C13"
 TIE_MODULES = ["StathamModel.Tie"]
 ASSUMPTIONS = ["reconfiguration goes through attribute assignment and the properties mapping (the public surface)"]
 N_HIST = {"quick": 250, "thorough": 3000}
+N_CARRIED = {"quick": 220, "thorough": 1500}
 
 
 def _not_nothing(dg):
@@ -260,12 +262,495 @@ def compare(drv, el, values, out, stats, history, origin):
     # the configuration is what the reconfiguration steps made it: calls must not have moved it
     try:
         after = current_config(el)
-    except Exception:  # noqa: BLE001
-        after = dump
+    except Exception as exc:  # noqa: BLE001 - it could be read before the calls
+        after = {"unreadable": f"{type(exc).__name__}: {exc}"[:200]}
     if after != dump:
         out.failures.append({"case": {"origin": origin, "history": list(history), "config": dump, "config_after_calls": after},
                              "what": "validation calls changed the element's configuration (state from earlier calls leaks into later ones)",
                              "finding": None})
+
+
+# ----------------------------------------------------------------------------- carried histories
+# The statement quantifies over every element ("an element or model class may be reconfigured after creation") and over
+# every interleaving of reconfigurations and calls.  Two classes of histories are explored here that the families above
+# never build:
+#   * the element that is reconfigured is one that another element *holds* (a property's element, `items`, `contains`,
+#     `additionalProperties`, `propertyNames`, a `patternProperties` / `dependencies` member, a composition member, the
+#     operand of `Not`), reconfigured IN PLACE after the holder has been used - the holder is not told;
+#   * the values of later calls are values of earlier calls: equal values built anew (anything remembered per value, per
+#     key, per item is consulted again) and the very same Python objects (anything an earlier call left in or on the
+#     value comes back).
+# Oracle (the statement's own): the verdict and result of the live element for the value as the caller wrote it equal
+# those of a freshly constructed element with the same configuration called on a freshly built, equal value.
+# Every history is explicit data (start dump, value pool, steps), is replayed from that data alone and is shrunk.
+
+NUM_KWS = {
+    "minimum": INTS + [1.5, 2.5], "maximum": INTS + [1.5, 2.5], "exclusiveMinimum": INTS + [1.5, 2.5], "exclusiveMaximum": INTS + [1.5, 2.5],
+    "multipleOf": [1, 2, 3], "minLength": [0, 1, 2, 3, 5], "maxLength": [0, 1, 2, 3, 5], "minItems": [0, 1, 2], "maxItems": [0, 1, 2, 3],
+    "minProperties": [0, 1, 2, 3], "maxProperties": [0, 1, 2, 3],
+}
+KW_GROUPS = {
+    "string": ["minLength", "maxLength", "pattern", "const", "enum"],
+    "number": ["minimum", "maximum", "exclusiveMinimum", "exclusiveMaximum", "multipleOf", "const", "enum"],
+    "array": ["minItems", "maxItems", "uniqueItems", "items", "additionalItems", "contains", "const", "enum"],
+    "object": ["minProperties", "maxProperties", "required", "additionalProperties", "propertyNames", "patternProperties",
+               "dependencies", "const", "enum", "default"],
+    "any": ["const", "enum", "default"],
+}
+ALL_KWS = sorted({k for g in KW_GROUPS.values() for k in g})
+# keywords whose "not given" state is NotPassed(): they can be taken away again by assigning NotPassed()
+UNSETTABLE = set(ALL_KWS) - {"additionalProperties", "additionalItems", "uniqueItems"}
+NAME_POOL = ["a", "b", "c", "ab", "a b", "zz", "class", "a_b", "", "x", "abc"]
+LIT_POOL = [1, "a", None, [1], {"a": 1}, True, 1.0, 0, False, 0.0, {}, [], "b", 2]
+
+
+def sub_elements(el):
+    """[(step, element)] for every element that the configuration of `el` holds directly"""
+    out = []
+    items = getattr(el, "items", core.NP)
+    if isinstance(items, list):
+        out += [(["items", i], x) for i, x in enumerate(items) if isinstance(x, Element)]
+    elif isinstance(items, Element):
+        out.append((["items"], items))
+    for attr in ("additionalItems", "contains", "additionalProperties", "propertyNames"):
+        x = getattr(el, attr, core.NP)
+        if isinstance(x, Element):
+            out.append(([attr], x))
+    props = getattr(el, "properties", core.NP)
+    if isinstance(props, dict):
+        out += [(["properties", n], p.element) for n, p in props.items() if isinstance(p.element, Element)]
+    for attr in ("patternProperties", "dependencies"):
+        m = getattr(el, attr, core.NP)
+        if isinstance(m, dict):
+            out += [([attr, k], x) for k, x in m.items() if isinstance(x, Element)]
+    if isinstance(el, core.CompositionElement):
+        out += [(["elements", i], x) for i, x in enumerate(el.elements) if isinstance(x, Element)]
+    elif isinstance(el, core.Not):
+        out.append((["element"], el.element))
+    return out
+
+
+def walk(root, limit=40, depth=4):
+    """[(path, element)] breadth first, the root first"""
+    nodes = [([], root)]
+    i = 0
+    while i < len(nodes) and len(nodes) < limit:
+        path, el = nodes[i]
+        i += 1
+        if len(path) < depth:
+            nodes += [(path + [step], sub) for step, sub in sub_elements(el)]
+    return nodes[:limit]
+
+
+def resolve(root, path):
+    el = root
+    for step in path:
+        if step[0] == "properties":
+            el = el.properties[step[1]].element
+        elif len(step) == 2:
+            el = getattr(el, step[0])[step[1]]
+        else:
+            el = getattr(el, step[0])
+    return el
+
+
+def dec_arg(enc):
+    if isinstance(enc, dict) and "np" in enc:
+        return core.NotPassed()
+    return dsl.dec_val(enc)
+
+
+def materialize(spec):
+    """the Python value a step assigns (elements are built anew: never used before)"""
+    if spec.get("unset"):
+        return core.NotPassed()
+    if "lit" in spec:
+        return dsl.dec_val(spec["lit"])
+    if "elem" in spec:
+        return dsl.build(spec["elem"])
+    if "elems" in spec:
+        return [dsl.build(d) for d in spec["elems"]]
+    return {k: (list(v["names"]) if "names" in v else dsl.build(v["elem"])) for k, v in spec["map"]}
+
+
+def apply_step(root, step):
+    """Apply one reconfiguration step (explicit data) to the live tree."""
+    el = resolve(root, step["path"])
+    if step["op"] == "set":
+        setattr(el, step["kw"], materialize(step))
+    elif step["op"] == "members":
+        new = list(el.elements)
+        if step["how"] == "del":
+            del new[step["index"]]
+        elif step["how"] == "replace":
+            new[step["index"]] = dsl.build(step["elem"])
+        else:
+            new.insert(step["index"], dsl.build(step["elem"]))
+        el.elements = new
+    elif step["op"] == "prop":
+        props = el.properties
+        name = step["name"]
+        if step["how"] == "add":
+            prop = Property(dsl.build(step["elem"]), required=step["required"], source=step.get("source"))
+            if isinstance(props, core.NotPassed):
+                el.properties = {name: prop}
+            else:
+                props[name] = prop
+        elif step["how"] == "del":
+            del props[name]
+        elif step["how"] == "required":
+            props[name].required = step["required"]
+        else:
+            props[name].element = dsl.build(step["elem"])
+    else:
+        raise ValueError(step["op"])
+
+
+def describe(step):
+    where = "/".join(".".join(str(x) for x in s) for s in step.get("path", [])) or "<root>"
+    if step["op"] == "call":
+        return f"call value#{step['value']} ({'the same object again' if step['same'] else 'an equal new object'})"
+    if step["op"] == "set":
+        shown = "NotPassed()" if step.get("unset") else (repr(dsl.dec_val(step["lit"])) if "lit" in step else "<new element(s)>")
+        return f"{where}: {step['kw']} = {shown}"
+    if step["op"] == "members":
+        return f"{where}: elements {step['how']} [{step['index']}]"
+    return f"{where}: properties[{step['name']}] {step['how']}" + (f" -> {step['required']}" if step["how"] == "required" else "")
+
+
+def node_group(el):
+    name = "Object" if isinstance(el, type) else type(el).__name__
+    if name == "String":
+        return "string"
+    if name in ("Integer", "Number"):
+        return "number"
+    if name == "Array":
+        return "array"
+    if name == "Object":
+        return "object"
+    return None
+
+
+def name_schema(rng):
+    """a dump for a `propertyNames` element: a string schema that accepts some of the key names in use"""
+    kw = {}
+    k = rng.random()
+    if k < 0.45:
+        kw["maxLength"] = core.enc_val(rng.choice([1, 2, 3, 5, 8]))
+    elif k < 0.7:
+        kw["pattern"] = rng.choice(["^[a-z]", "^a", "^[a-c_ ]+$", ".*", "^.$"])
+    elif k < 0.85:
+        kw["enum"] = [core.enc_val(x) for x in rng.sample(NAME_POOL, 4)]
+    if rng.random() < 0.2:
+        kw["minLength"] = core.enc_val(rng.choice([0, 1]))
+    return {"cls": rng.choice(["String", "String", "Element"]), "kw": kw}
+
+
+def kw_spec(rng, kw, el, dg, group):
+    """the new value of keyword `kw` as explicit data"""
+    sub = lambda: dg.leaf() if rng.random() < 0.8 else dg.dump(1)
+    lit = lambda: rng.choice(NAME_POOL if group == "string" else LIT_POOL)
+    if kw in UNSETTABLE and rng.random() < 0.12:
+        return {"unset": True}
+    if kw in NUM_KWS:
+        return {"lit": core.enc_val(rng.choice(NUM_KWS[kw]))}
+    if kw == "pattern":
+        return {"lit": rng.choice(PATTERNS)}
+    if kw == "uniqueItems":
+        return {"lit": rng.choice([True, False])}
+    if kw == "required":
+        props = getattr(el, "properties", core.NP)
+        declared = [p.source or n for n, p in props.items()] if isinstance(props, dict) else []
+        pool = list(dict.fromkeys(declared + ["a", "b", "c", "zz"]))
+        return {"lit": rng.sample(pool, rng.choice([0, 1, 1, 2]))}
+    if kw in ("const", "default"):
+        return {"lit": core.enc_val(lit())}
+    if kw == "enum":
+        return {"lit": [core.enc_val(lit()) for _ in range(rng.choice([1, 2, 3]))]}
+    if kw in ("additionalProperties", "additionalItems"):
+        return rng.choice([{"lit": True}, {"lit": False}, {"elem": sub()}])
+    if kw == "items":
+        return {"elem": sub()} if rng.random() < 0.6 else {"elems": [sub() for _ in range(rng.choice([1, 2]))]}
+    if kw == "contains":
+        return {"elem": sub()}
+    if kw == "propertyNames":
+        return {"elem": name_schema(rng)}
+    if kw == "patternProperties":
+        return {"map": [[rng.choice(PATTERNS), {"elem": sub()}]]}
+    if kw == "dependencies":
+        return {"map": [[rng.choice(["a", "b", "c"]), rng.choice([{"names": rng.sample(["a", "b", "c", "zz"], rng.choice([1, 2]))}, {"elem": sub()}])]]}
+    raise ValueError(kw)
+
+
+def reconfig_step(rng, root, dg, stats):
+    """One random reconfiguration step as explicit data: which element of the tree (the root, or - more often - an
+    element that another one holds), and what is assigned."""
+    nodes = walk(root)
+    if len(nodes) == 1 or rng.random() < 0.35:
+        path, el = nodes[0]
+    else:  # a held element; those the root holds itself count double (what they accept shows in most verdicts)
+        path, el = rng.choices(nodes[1:], weights=[2 if len(p) == 1 else 1 for p, _ in nodes[1:]])[0]
+    role = path[-1][0] if path else "root"
+    stats["carried-reconfigured-" + role] = stats.get("carried-reconfigured-" + role, 0) + 1
+    is_class = isinstance(el, type)
+    props = getattr(el, "properties", core.NP)
+    members = getattr(el, "elements", None)
+    if isinstance(members, list) and not is_class and rng.random() < 0.3:
+        how = rng.choice(["del", "replace", "insert"]) if len(members) > 1 else rng.choice(["replace", "insert"])
+        index = rng.randrange(len(members) + (1 if how == "insert" else 0)) if members else 0
+        if not members:
+            how = "insert"
+        return {"op": "members", "path": path, "how": how, "index": index, "elem": dg.leaf()}
+    if isinstance(el, core.Not) and rng.random() < 0.3:
+        return {"op": "set", "path": path, "kw": "element", "elem": dg.leaf()}
+    if isinstance(props, dict) and rng.random() < 0.35:
+        names = list(props)
+        k = rng.random()
+        if k < 0.3 or not names:
+            n = rng.choice(NEW_NAMES + names)
+            return {"op": "prop", "path": path, "how": "add", "name": n, "elem": dg.leaf(), "required": rng.random() < 0.4,
+                    "source": rng.choice([n, n + "_src"]) if rng.random() < 0.15 else None}
+        n = rng.choice(names)
+        if k < 0.5:
+            return {"op": "prop", "path": path, "how": "del", "name": n}
+        if k < 0.8:
+            return {"op": "prop", "path": path, "how": "required", "name": n, "required": not props[n].required}
+        return {"op": "prop", "path": path, "how": "element", "name": n, "elem": dg.leaf()}
+    group = node_group(el)
+    if is_class:
+        pool = KW_GROUPS["object"]
+    elif group is not None and rng.random() < 0.75:
+        pool = KW_GROUPS[group]
+    elif group is None and rng.random() < 0.6:
+        pool = KW_GROUPS[rng.choice(["string", "number", "array", "object", "any"])]
+    else:
+        pool = ALL_KWS
+    kw = rng.choice(pool)
+    return {"op": "set", "path": path, "kw": kw, **kw_spec(rng, kw, el, dg, group)}
+
+
+class Carried:
+    """The live side of a carried history: the element, the value pool (as data, and as the Python objects that are
+    passed again), and the configuration that the reconfiguration steps so far have produced (read once after every
+    reconfiguration step: the calls in between must not move it)."""
+
+    def __init__(self, case):
+        self.el = dsl.build(case["start"])
+        self.values = case["values"]
+        self.objs = [dec_arg(v) for v in self.values]
+        self.stale = True
+        self.config = None
+
+    def add(self, enc):
+        self.values.append(enc)
+        self.objs.append(dec_arg(enc))
+
+    def reconfigure(self, step):
+        self.stale = True
+        apply_step(self.el, step)
+
+    def current(self):
+        if self.stale:
+            self.stale = False
+            try:
+                self.config = current_config(self.el)
+            except Exception:  # noqa: BLE001
+                self.config = None
+        return self.config
+
+    def call(self, step):
+        """(live outcome, outcome of a fresh element with the same configuration on a freshly built equal value, the
+        configuration); the fresh outcome is None when the configuration cannot be read or rebuilt."""
+        enc = self.values[step["value"]]
+        config = self.current()
+        try:
+            fresh = None if config is None else dsl.build(config)
+        except Exception:  # noqa: BLE001
+            fresh = None
+        arg = self.objs[step["value"]] if step["same"] else dec_arg(enc)
+        live = core._real_call(self.el, arg)  # pylint: disable=protected-access
+        if fresh is None:
+            return live, None, None
+        return live, core._real_call(fresh, dec_arg(enc)), config  # pylint: disable=protected-access
+
+
+def carried_mismatch(live, fr):
+    if fr is None or live["r"] not in ("ok", "reject") or fr["r"] not in ("ok", "reject"):
+        return None
+    if live["r"] != fr["r"]:
+        return f"the element answers {live['r']}, a fresh element with the same configuration answers {fr['r']} for an equal fresh value"
+    if live != fr:
+        return (f"the element returns {str(live.get('v'))[:120]}, a fresh element with the same configuration returns "
+                f"{str(fr.get('v'))[:120]} for an equal fresh value")
+    return None
+
+
+def carried_execute(case):
+    """Run a carried history from its data alone.  Returns (index of the first failing call step, what, configuration)
+    or None."""
+    live_side = Carried(case)
+    for i, step in enumerate(case["steps"]):
+        if step["op"] != "call":
+            try:
+                live_side.reconfigure(step)
+            except Exception:  # noqa: BLE001 - a refused or no longer applicable step is part of the history
+                pass
+            continue
+        live, fr, config = live_side.call(step)
+        what = carried_mismatch(live, fr)
+        if what:
+            return i, what, config
+    return None
+
+
+def carried_shrink(case, budget=150):
+    """Drop steps (then unused values) while the history still ends in a failing call."""
+    def cut(c):
+        hit = carried_execute(c)
+        if hit is None:
+            return None
+        return {**c, "steps": c["steps"][:hit[0] + 1]}
+    best = cut(case)
+    if best is None:
+        return case
+    i = len(best["steps"]) - 2
+    while i >= 0 and budget > 0:
+        budget -= 1
+        try:
+            trial = cut({**best, "steps": best["steps"][:i] + best["steps"][i + 1:]})
+        except Exception:  # noqa: BLE001
+            trial = None
+        if trial is not None:
+            best = trial
+            i = min(i, len(best["steps"]) - 1)
+        i -= 1
+    used = sorted({s["value"] for s in best["steps"] if s["op"] == "call"})
+    remap = {old: new for new, old in enumerate(used)}
+    best = {**best, "values": [best["values"][i] for i in used],
+            "steps": [({**s, "value": remap[s["value"]]} if s["op"] == "call" else s) for s in best["steps"]]}
+    return best if carried_execute(best) is not None else case
+
+
+def carried_failure(case):
+    case = carried_shrink(case)
+    hit = carried_execute(case)
+    if hit is None:  # seen live, not reproduced from the data: still a failure, reported as it was seen
+        # (it then depends on something outside the history, e.g. on what earlier histories left behind in the process:
+        # replayed like the PRNG-derived histories, by running the whole seeded run again)
+        return {"case": {**case, "family": "carried-as-seen", "history": [describe(s) for s in case["steps"]]},
+                "what": "a carried history ended in a call whose answer differs from a fresh element's (seen in the run, not reproduced from the history's data alone)",
+                "finding": None}
+    idx, what, config = hit
+    last = case["steps"][idx]
+    return {"case": {**case, "steps": case["steps"][:idx + 1], "history": [describe(s) for s in case["steps"][:idx + 1]],
+                     "config": config, "value": case["values"][last["value"]]},
+            "what": ("after the history (value re-presented as " + ("the same object" if last["same"] else "an equal new object") + "): " + what),
+            "finding": None}
+
+
+def hold_one_more(rng, start, dg):
+    """Give the start element one more held element, in a role it does not use yet (the generator's trees use most of
+    these roles rarely, and each role is one place where a holder can keep something about the element it holds)."""
+    kw = start.setdefault("kw", {})
+    roles = ["propNames", "addProps", "patProps", "deps"] + (["contains", "addItems"] if start["cls"] == "Element" else [])
+    free = [r for r in roles if r not in start and not (r == "addProps" and "addPropsB" in kw) and not (r == "addItems" and "addItemsB" in kw)]
+    if not free:
+        return
+    role = rng.choice(free)
+    if role == "propNames":
+        start[role] = name_schema(rng)
+    elif role == "patProps":
+        kw["hasPatProps"] = True
+        start[role] = [[{"name": rng.choice(PATTERNS)}, dg.leaf()]]
+    elif role == "deps":
+        kw["hasDeps"] = True
+        start[role] = [[{"name": rng.choice(["a", "b", "c"])}, dg.leaf()]]
+    else:
+        start[role] = dg.leaf()
+
+
+def run_carried(ctx, rng, out, stats, n):
+    """Histories in which held elements are reconfigured in place and earlier values come back (see above)."""
+    vg, dg = ValueGen(rng), dsl.DumpGen(rng)
+    bump = lambda k: stats.__setitem__(k, stats.get(k, 0) + 1)
+    found = 0
+    for i in range(n):
+        if found >= 3:  # each one is shrunk, which costs; three are enough to report
+            break
+        start = [dg.obj, dg.element, dg.dump, dg.obj][i % 4](2)
+        if start["cls"] == "Nothing":
+            continue
+        if rng.random() < 0.5 and start["cls"] in ("Object", "Element"):
+            hold_one_more(rng, start, dg)
+        case = {"family": "carried", "start": start, "values": [], "steps": []}
+        side = Carried(case)
+        el = side.el
+        accepted, reconfigs, failed = set(), 0, False
+        bump("carried-histories")
+
+        def add_values(vals):
+            for v in vals:
+                try:
+                    side.add(core.enc_arg(v))
+                except (TypeError, ValueError):
+                    continue
+
+        def call(idx, same):
+            step = {"op": "call", "value": idx, "same": same}
+            case["steps"].append(step)
+            live, fr, config = side.call(step)
+            seen_before = idx in presented
+            presented.add(idx)
+            bump("carried-call-" + ("first-presentation" if not seen_before else "same-object-again" if same else "equal-value-again"))
+            if seen_before and idx in accepted:
+                bump("carried-call-again-after-it-was-accepted")
+            bump("carried-verdict-" + live["r"])
+            if live["r"] == "ok":
+                accepted.add(idx)
+            if config is not None:
+                out.note_case({"config": config, "value": case["values"][idx], "steps": len(case["steps"]), "same": same}, reconfigs > 0)
+            return carried_mismatch(live, fr) is not None
+
+        def config_and_schema():
+            config = side.current()
+            try:
+                return config or {}, dump_to_schema(config) if config else {}
+            except Exception:  # noqa: BLE001
+                return {}, {}
+
+        presented = set()
+        config, schema = config_and_schema()
+        add_values(vg.values(schema, 3) + property_probes(rng, config, 2, stats) + [{"a": 1}])
+        for idx in range(len(side.objs)):
+            failed = failed or call(idx, rng.random() < 0.5)
+        for _ in range(rng.randint(6, 9) if ctx["tier"] == "quick" else rng.randint(8, 30)):
+            if failed:
+                break
+            step = reconfig_step(rng, el, dg, stats)
+            case["steps"].append(step)
+            bump("carried-step-" + ("in-place-on-held-element" if step["path"] else "on-root"))
+            try:
+                side.reconfigure(step)
+                reconfigs += 1
+            except Exception as exc:  # noqa: BLE001 - e.g. SchemaDefinitionError: part of the API
+                bump("carried-step-raised-" + type(exc).__name__)
+            before = len(side.objs)
+            config, schema = config_and_schema()
+            add_values(vg.values(schema, rng.choice([1, 2])) + property_probes(rng, config, 1, stats))
+            picks = list(range(before, len(side.objs)))
+            old_ok = [j for j in range(before) if j in accepted]
+            for _ in range(rng.choice([2, 3, 4])):
+                picks.append(rng.choice(old_ok) if old_ok and rng.random() < 0.65 else rng.randrange(len(side.objs)))
+            rng.shuffle(picks)
+            for idx in picks:
+                failed = failed or call(idx, rng.random() < 0.5)
+        if failed:
+            found += 1
+            try:
+                out.failures.append(carried_failure(case))
+            except Exception as exc:  # noqa: BLE001
+                out.notes.append(f"carried history failed but could not be replayed from its data: {type(exc).__name__}: {exc}")
+                bump("carried-unreplayable")
 
 
 def run(ctx, scale=1.0):
@@ -275,7 +760,12 @@ def run(ctx, scale=1.0):
                 "assignments, property add/replace/delete/flag flip/element swap, whole-mapping replacement, the mapping methods of the "
                 "properties container: update (dict / keywords / pairs), setdefault, |= on the container and on the attribute, | and "
                 "reassignment, pop, popitem, clear) followed by calls on generated values, objects probing the declared property keys and fixed values; "
-                "a case is one call with its history; non-trivial = made after at least one reconfiguration; distinct by SHA-256")
+                "a case is one call with its history; non-trivial = made after at least one reconfiguration; distinct by SHA-256; "
+                "carried histories (explicit data, replayed and shrunk from it): 6-9 reconfiguration steps, most of them IN PLACE on an "
+                "element that another one holds (property element, items, contains, additional*, propertyNames, patternProperties / "
+                "dependencies member, composition member, operand of Not; keyword set / taken away, property add / delete / flag / "
+                "element, members changed), each followed by calls whose values are mostly values of earlier calls - an equal new "
+                "object or the very same object - compared with a fresh element of the same configuration on a freshly built equal value")
     stats = {}
     drv = core.Driver()
     try:
@@ -332,8 +822,13 @@ def run(ctx, scale=1.0):
                 vv = [v] if dump["cls"] == "Array" else v
                 compare(drv, el, [vv, [both, second_only, both] if dump["cls"] == "Array" else both], out, stats, history, "composition-family")
                 history.append(f"call {v!r}")
+        t0 = time.time()
+        run_carried(ctx, rng, out, stats, int(N_CARRIED[ctx["tier"]] * scale))
+        stats["carried-seconds"] = round(time.time() - t0, 1)
     finally:
         drv.close()
+    # failures that are explicit data (replayed from the case alone, shrunk) are reported first
+    out.failures.sort(key=lambda f: 0 if isinstance(f.get("case"), dict) and f["case"].get("family") == "carried" else 1)
     out.stats = stats
     return out
 
@@ -341,8 +836,20 @@ def run(ctx, scale=1.0):
 def search(ctx, reason):
     sub = dict(ctx)
     sub["seed"] = ctx["seed"] + 32452843
-    found = run(sub, scale=3.0 if ctx["tier"] == "quick" else 1.0)
-    return found.failures[0] if found.failures else None
+    # the carried histories need no driver and are cheap: a larger batch of them first
+    first = Outcome()
+    run_carried(sub, random.Random(sub["seed"] + 13), first, {}, N_CARRIED[ctx["tier"]] * (6 if ctx["tier"] == "quick" else 1))
+    for failure in first.failures:
+        if failure["case"].get("family") == "carried":
+            return failure
+    scale = 3.0 if ctx["tier"] == "quick" else 1.0
+    found = run(sub, scale=scale)
+    if not found.failures:
+        return None
+    failure = found.failures[0]
+    if isinstance(failure.get("case"), dict) and failure["case"].get("family") != "carried":
+        failure["case"]["rerun"] = {"seed": sub["seed"], "tier": ctx["tier"], "scale": scale}
+    return failure
 
 
 def replay_finding(finding):
@@ -350,7 +857,12 @@ def replay_finding(finding):
 
 
 def replay(payload):
-    # histories are replayed by re-running the seeded search (steps are PRNG-derived)
-    ctx = {"seed": payload.get("seed", 0), "tier": payload.get("tier", "quick")}
-    found = run(ctx)
+    case = (payload.get("failure") or {}).get("case") or {}
+    if case.get("family") == "carried":
+        # explicit data: start dump, value pool, steps
+        return carried_execute(case) is None
+    # the other histories are replayed by re-running the seeded run (steps are PRNG-derived)
+    again = case.get("rerun") or {}
+    ctx = {"seed": again.get("seed", payload.get("seed", 0)), "tier": again.get("tier", payload.get("tier", "quick"))}
+    found = run(ctx, scale=again.get("scale", 1.0))
     return not found.failures
